@@ -220,3 +220,61 @@ def desugar_closures(text):
         log.append('%s: `%s…`' % (rule, ' '.join(text[recv0:recv0 + 60].split())))
         text = text[:recv0] + new + text[end:]
         skip_from = len(text)
+
+
+# ---------------------------------------------------------------------------------------------
+# D17: `with_scope!(ctxt, scope, stmt; stmt; ..)` expanded by its own definition (second arm of the
+# macro in context.rs).  The definition is read from /repo on every run and compared with the text
+# this expansion implements; any difference => UNDECIDED.
+WITH_SCOPE_DEF = """macro_rules! with_scope {
+    ($val:expr) => { 2 };
+    ($ctxt:ident, $scope:path, $($code:stmt);+ $(;)?) => {
+        $ctxt.symbol_table.enter_scope($scope);
+        $($code)+
+        $ctxt.symbol_table.exit_scope();
+    };
+
+    ($ctxt:ident, $scope:path, $code:block) => {
+        $ctxt.symbol_table.enter_scope($scope);
+        $code;
+        $ctxt.symbol_table.exit_scope();
+    };
+}"""
+
+
+def expand_with_scope(text, macro_def_text):
+    """returns (new_text, n).  Raises NoRule if the macro changed or an invocation has another shape."""
+    norm = lambda t: ' '.join(t.split())
+    if norm(WITH_SCOPE_DEF) not in norm(macro_def_text):
+        raise NoRule('the definition of with_scope! in context.rs differs from the one D17 expands')
+    n = 0
+    while True:
+        rf = RustFile('<fn>', text)
+        code = rf.code
+        m = None
+        for mm in re.finditer(r'\bwith_scope!\s*\(', text):
+            if code[mm.start()]:
+                m = mm
+        if m is None:
+            return text, n
+        po = m.end() - 1
+        pc = _match_close(text, code, po)
+        args = _split_args(text, code, po + 1, pc)
+        if len(args) < 3:
+            raise NoRule('with_scope! with %d arguments' % len(args))
+        ctxt = text[args[0][0]:args[0][1]].strip()
+        scope = text[args[1][0]:args[1][1]].strip()
+        body = text[args[2][0]:pc].strip()
+        if not re.match(r'^[A-Za-z_]\w*$', ctxt) or body.startswith('{'):
+            raise NoRule('with_scope! shape (block arm or non-identifier context)')
+        if not body.endswith(';'):
+            body += ';'
+        end = pc + 1
+        k = end
+        while k < len(text) and text[k].isspace():
+            k += 1
+        if k < len(text) and text[k] == ';':
+            end = k + 1
+        new = '%s.symbol_table.enter_scope(%s);\n%s\n%s.symbol_table.exit_scope();' % (ctxt, scope, body, ctxt)
+        text = text[:m.start()] + new + text[end:]
+        n += 1
